@@ -113,17 +113,18 @@ const bindHex = "0200007F"
 const listenHex = "0300007F"
 
 type c09Env struct {
-	c      *Ctx
-	T      time.Duration
-	slack  time.Duration
-	fm     *farm.Farm
-	bcast  *farm.Endpoint
-	udp    *farm.Endpoint
-	tcp    *farm.Endpoint
-	closed int      // a port nobody listens on
-	plan   sync.Map // serial -> behaviour name
-	floodS time.Duration
-	timing sync.Map // serial -> *c09Timing (measured by the farm)
+	c       *Ctx
+	T       time.Duration
+	slack   time.Duration
+	fm      *farm.Farm
+	bcast   *farm.Endpoint
+	udp     *farm.Endpoint
+	tcp     *farm.Endpoint
+	closed  int      // a port nobody listens on
+	plan    sync.Map // serial -> behaviour name
+	floodS  time.Duration
+	timing  sync.Map                                         // serial -> *c09Timing (measured by the farm)
+	cfgHook func(b behaviour, serial uint32, cfg *ClientCfg) // netns mode: network specific configuration
 }
 
 type c09Timing struct {
@@ -146,10 +147,8 @@ func (e *c09Env) answeredInTime(serial uint32, frac float64) (bool, float64) {
 	return time.Duration(s-r) <= time.Duration(float64(e.T)*frac), off
 }
 
-func newC09Env(c *Ctx, T time.Duration) *c09Env {
-	e := &c09Env{c: c, T: T, slack: 1500 * time.Millisecond, fm: farm.New(), floodS: T + 2500*time.Millisecond}
-	e.fm.KeepLog = false
-	e.fm.Hook = func(ev farm.Event) {
+func c09TimingHook(e *c09Env) func(ev farm.Event) {
+	return func(ev farm.Event) {
 		if len(ev.Data) != 64 || (ev.Kind != "recv" && ev.Kind != "send") {
 			return
 		}
@@ -162,6 +161,12 @@ func newC09Env(c *Ctx, T time.Duration) *c09Env {
 			t.send.Store(ev.T)
 		}
 	}
+}
+
+func newC09Env(c *Ctx, T time.Duration) *c09Env {
+	e := &c09Env{c: c, T: T, slack: 1500 * time.Millisecond, fm: farm.New(), floodS: T + 2500*time.Millisecond}
+	e.fm.KeepLog = false
+	e.fm.Hook = c09TimingHook(e)
 	var err error
 	if e.bcast, err = e.fm.AddUDP("127.0.0.1", 0); err != nil {
 		return nil
@@ -279,6 +284,9 @@ func (e *c09Env) run(b behaviour, serial uint32, bind string) c09Result {
 	case b.path == "tcp":
 		cfg.Devices = []DevCfg{{ID: serial, Addr: e.tcp.Addr, Proto: "tcp"}}
 	}
+	if e.cfgHook != nil {
+		e.cfgHook(b, serial, &cfg)
+	}
 	u := mkClient(cfg)
 	name := b.name
 	if name == "set-address" || name == "discovery" {
@@ -384,6 +392,10 @@ func (e *c09Env) judge(res c09Result, caseNo int64, phase string, queuePos int) 
 func c09(c *Ctx) {
 	c.Res.Rule = "every delivery path x network behaviour {silence, prompt, reply at 0.5T/0.7T/1.3T, stray flood until past the deadline, flood then valid, TCP accept-and-stall / reset / close / refused, UDP closed port, unreachable network, SetAddress, discovery}: (1) one call at a time: return time against [minT, T*(queue position+1)+slack], success iff an acceptable reply was sent in time, and the process's library sockets (by /proc/self/fd + /proc/self/net, local address 127.0.0.2/3) must be zero the moment the call returns, library goroutines back to baseline promptly; (2) fixed bind port: queued calls served in turn; (3) leak batches: random parallel sequences of such calls and listener start/stop cycles, sockets and goroutines compared before/after with the GC disabled; distinct = distinct (phase, behaviour, path, port mode, queue position)"
 	debug.SetGCPercent(-1) // a finalizer must not hide a missing Close
+	if c.Mode == "netns" {
+		c09Netns(c)
+		return
+	}
 	T := 200 * time.Millisecond
 	e := newC09Env(c, T)
 	if e == nil {
